@@ -321,6 +321,9 @@ class ClientSSM(SSM):
         # that can be delivered to the server and the largest it can accept
         else:
             self.segmentSize = min(self.device_info.maxNpduLength, self.device_info.maxApduLengthAccepted)
+
+        # the fixed part of a segmented confirmed request counts as well
+        self.segmentSize -= 6
         if _debug: ClientSSM._debug("    - segment size: %r", self.segmentSize)
 
         # save the invoke ID
@@ -803,6 +806,9 @@ class ServerSSM(SSM):
                 self.segmentSize = self.maxApduLengthAccepted
             else:
                 self.segmentSize = min(self.device_info.maxNpduLength, self.maxApduLengthAccepted)
+
+            # the fixed part of a segmented complex ack counts as well
+            self.segmentSize -= 5
             if _debug: ServerSSM._debug("    - segment size: %r", self.segmentSize)
 
             # compute the segment count
